@@ -68,6 +68,16 @@ func Steps(budget int64, f func()) (steps int64, exceeded bool) {
 	return
 }
 
+// ArmAlloc arms (n>0) or disarms (0) the allocation budget; Allocated is the volume since then.
+func ArmAlloc(n uint64) { rt.ArmAlloc(n) }
+func Allocated() uint64 { return rt.Allocated() }
+
+// AllocExceeded reports whether a recovered panic value is the ALLOCATION budget sentinel (and the volume).
+func AllocExceeded(v any) (uint64, bool) {
+	b, ok := v.(rt.BudgetExceeded)
+	return b.Alloc, ok && b.Alloc > 0
+}
+
 // IsBudget reports whether a recovered panic value is the budget sentinel.
 func IsBudget(v any) bool { _, ok := v.(rt.BudgetExceeded); return ok }
 
@@ -76,6 +86,16 @@ func SetBudget(n int64) { rt.Steps, rt.Budget = 0, n }
 
 // StepCount is the number of statements executed since the last SetBudget.
 func StepCount() int64 { return rt.Steps }
+
+// SetPointHook installs f (nil: removes it) to be called at every statement of the instrumented packages: an
+// observer of what the code under test has done SO FAR, in the middle of a call.
+func SetPointHook(f func()) {
+	if f == nil {
+		rt.PointHook = nil
+		return
+	}
+	rt.PointHook = func(int) { f() }
+}
 
 // VirtualTime switches the skipping of waits (time.Sleep ... of the instrumented packages) on or off.
 func VirtualTime(on bool) { rt.VirtualTime.Store(on) }
